@@ -324,13 +324,15 @@ def bounded_checks(tier, seed):
                         '--scheduler'], capture_output=True, text=True, timeout=1800,
                        env=dict(os.environ, PYTHONPATH=repo), cwd=repo)
     line = next((l for l in reversed(p.stdout.splitlines()) if l.startswith('{')), None)
-    rule = ('one 4-file project (an ignored routine sharing a file with an active one, a diamond of callers) x '
-            '{item graph, file graph} x {process_ignored_items} x {reverse} x {plan, default}: each selected item '
-            'exactly once, no other, role/targets of the item, callers before callees (reversed if asked)')
+    rule = ('two projects (4 files: an ignored routine sharing a file with an active one, a diamond of callers; 3 files: '
+            'one file holding only a type definition and a binding chain, no procedure) x {item graph, file graph} x '
+            '{process_ignored_items} x {reverse} x {plan, default}: each selected item exactly once, no other, role/targets '
+            'of the item, callers before callees (reversed if asked), file-graph processing visits exactly the files '
+            'containing a selected item, once')
     if line is None:
         return [{'name': 'native/scheduler', 'cases': 0, 'violation': False, 'error': p.stderr[-600:], 'rule': rule}]
     r = json.loads(line)
-    return [{'name': 'native/scheduler', 'cases': 16, 'distinct': 16, 'rule': rule, 'bound': 'one fixed project',
+    return [{'name': 'native/scheduler', 'cases': 32, 'distinct': 32, 'rule': rule, 'bound': 'two fixed projects',
              'violation': bool(r.get('reproduced')), 'cex': r}]
 
 
